@@ -127,7 +127,7 @@ Theorem spec_revert_restores e s span outs x0 x1 :
   let s2 := spec_run e s1 span outs in
   sp_cur (fst (spec_step e s2 (Revert (sp_next s)) x1)) = sp_cur s /\
   snd (spec_step e s2 (Revert (sp_next s)) x1) = ERes R_ok /\
-  wf_op_b s2 (Revert (sp_next s)) = (if sp_pend s2 then false else true).
+  wf_op_b s2 (Revert (sp_next s)) = true.
 Proof.
   intro Hs. cbv zeta.
   destruct (span_keeps_snapshot e (sp_next s) (sp_cur s) span outs (fst (spec_step e s Snap x0)) Hs) as [Ha Hn].
